@@ -1,6 +1,8 @@
 """C01  Periodogram equals the windowed-DFT definition and conserves power."""
 import numpy as np
 
+import single
+
 import proto
 from common import gen_data, as_input, rel, nfft_choices
 
@@ -185,7 +187,10 @@ KINDS = {
 }
 
 
+KINDS["single"] = single.kind("C01")
+
 def gen(rng, nrng, tier):
+    yield from single.gen("C01", nrng, tier)
     from spectrum.window import window_names
     names = sorted(window_names)
     n_main = 260 if tier == "quick" else 4000
